@@ -1,4 +1,5 @@
 import MxV.Model.Element
+import MxV.Tables.D_names
 /-! # C15 — shortcut syntax is equivalent to the explicit API
 `Element.childShortcut` is the decision `e.xml_x = value` takes (xmlelement.py:76-100); the driver
 carries the decision out with the *explicit* operations (replace_child / add_child / remove / value
@@ -33,3 +34,6 @@ end C15
 #print axioms C15.none_removes
 #print axioms C15.value_sets_or_builds
 #print axioms C15.unknown_name_is_attribute_error
+#print axioms C15.element_names_no_underscore
+#print axioms C15.attr_names_no_underscore
+#print axioms C15.reserved_collisions
